@@ -540,7 +540,11 @@ def family_c01(tier, seed):
         gram.mk('cmd', S(Ref('X'), L('z')), [('X', 'bash', Cmd(probe('c3'))), ('X', None, Cmd(probe('c4'))), ('X', 'zsh', Cmd(probe('c1')))]),
         gram.mk('cmd', S(L('f', 'descr f'), gram.Descr(A(L('g'), S(L('h'), L('i'))), 'dd'), L('z'))),
     ]
+    shapes.extend(shared_definition_shapes())
     fams.append(('shapes', shapes))
+    scoped, loops = scope_shapes()
+    fams.append(('main and within-word tables in one dynamic scope', scoped, 2))
+    fams.append(('the same, repeated', loops, 1 if tier == 'quick' else 2))
     fams.append(('random(seed=%d)' % seed, gen_e2(seed, 40 if tier == 'quick' else 400)))
     if tier != 'quick':
         # three complete words before the cursor on the hand-made shapes and the smallest trees
@@ -708,6 +712,43 @@ def check_C12(tier, seed):
     return rep
 
 
+def scope_shapes():
+    """tables of the main automaton and of several within-word automata live in one dynamic scope: a command / placeholder
+    at top level together with within-word expressions that do and do not contain one"""
+    L, S, A, Sub, Ref, Opt, Many, Cmd = gram.Lit, gram.Seq, gram.Alt, gram.Sub, gram.Ref, gram.Opt, gram.Many, gram.Cmd
+    out = []
+    loops = []
+    top_c, top_any = Cmd(probe('c1')), Ref('ANY')
+    w_plain = Sub(L('m='), A(L('f'), L('s')))
+    w_plain2 = Sub(L('p'), Opt(L('q')))
+    w_cmd = Sub(L('n='), Cmd(probe('c2')))
+    w_any = Sub(L('u='), Ref('ANY'))
+    for top in (top_c, top_any):
+        for ws in ((w_plain, w_cmd), (w_plain, w_any), (w_plain2, w_cmd), (w_plain, w_cmd, w_any)):
+            out.append(gram.mk('cmd', S(top, A(*ws), L('end'))))
+            out.append(gram.mk('cmd', S(A(*ws), top, L('end'))))
+            (loops if top is top_c else out).append(gram.mk('cmd', S(Many(A(*(ws + (top,)))), L('end'))) if top is top_c
+                                                     else gram.mk('cmd', S(A(*ws), Opt(top))))
+    return out, loops
+
+
+def shared_definition_shapes():
+    """one definition referenced from several places that differ in || level or in being inside a word: the body is one
+    shared subtree in the compiler, the references are distinct occurrences in the grammar"""
+    L, S, A, F, Sub, Ref, Opt, Cmd = gram.Lit, gram.Seq, gram.Alt, gram.Fb, gram.Sub, gram.Ref, gram.Opt, gram.Cmd
+    out = []
+    for body in (Cmd(probe('c1')), A(L('v'), Cmd(probe('c2'))), Sub(L('k='), Cmd(probe('c1')))):
+        X = [('X', None, body)]
+        out.append(gram.mk('cmd', A(F(L('z'), Ref('X')), S(L('q'), Ref('X'))), X))
+        out.append(gram.mk('cmd', F(S(L('a'), A(Ref('X'), L('b'))), Ref('X')), X))
+        out.append(gram.mk('cmd', S(F(Ref('X'), L('z')), F(L('y'), Ref('X')), L('end')), X))
+    X = [('X', None, Cmd(probe('c1')))]
+    out.append(gram.mk('cmd', A(F(L('a'), Ref('X')), Sub(L('--foo='), Ref('X'))), X))
+    out.append(gram.mk('cmd', A(F(L('a'), Ref('Y')), S(L('q'), Ref('Y'))), [('Y', None, A(Ref('X'), L('w'))), ('X', 'bash', Cmd(probe('c1'))), ('X', None, Cmd(probe('c2')))]))
+    out.append(gram.mk('cmd', A(F(L('a'), L('b'), Ref('X')), S(L('q'), F(L('r'), Ref('X')))), X))
+    return out
+
+
 PROBES_C17 = {'c1': 'bbb\nccc\n', 'c2': 'dd\n', 'c5': 'foo bar\tdescr one\nbaz\tdescr\n', 'c6': 'x y\n', 'c7': 'k1\tonly descr\n'}
 
 
@@ -730,20 +771,9 @@ def family_c17(tier, seed):
         out.append(gram.mk('cmd', S(Ref('W'), L('x')), [('W', None, A(S(L('y'), Ref('N')), L('w'))), ('N', None, c)]))
     out.append(gram.mk('cmd', S(A(Cmd(probe('c1')), Cmd(probe('c2'))), L('x'))))
     out.append(gram.mk('cmd', S(Cmd(probe('c1')), Cmd(probe('c2')), L('x'))))
-    # tables of the main automaton and of several within-word automata live in one dynamic scope: a command / placeholder
-    # at top level together with within-word expressions that do and do not contain one
-    loops = []
-    top_c, top_any = Cmd(probe('c1')), Ref('ANY')
-    w_plain = Sub(L('m='), A(L('f'), L('s')))
-    w_plain2 = Sub(L('p'), Opt(L('q')))
-    w_cmd = Sub(L('n='), Cmd(probe('c2')))
-    w_any = Sub(L('u='), Ref('ANY'))
-    for top in (top_c, top_any):
-        for ws in ((w_plain, w_cmd), (w_plain, w_any), (w_plain2, w_cmd), (w_plain, w_cmd, w_any)):
-            out.append(gram.mk('cmd', S(top, A(*ws), L('end'))))
-            out.append(gram.mk('cmd', S(A(*ws), top, L('end'))))
-            (loops if top is top_c else out).append(gram.mk('cmd', S(Many(A(*(ws + (top,)))), L('end'))) if top is top_c
-                                                     else gram.mk('cmd', S(A(*ws), Opt(top))))
+    scoped, loops = scope_shapes()
+    out.extend(scoped)
+    out.extend(shared_definition_shapes())
     out.append(gram.mk('cmd', S(L('a'), Ref('U'), Cmd(probe('c2')))))
     out.extend(gen_e2(seed + 17, 20 if tier == 'quick' else 200, allow_descr=False))
     # the repeated mixtures have many paths: one complete word in the quick tier, two in the thorough one
